@@ -99,6 +99,7 @@ func runC03(r *Run, replay *Case) {
 			c03OperandHistory(r)
 			c03OnceMemberHistory(r)
 			c03OnceHeadForms(r)
+			c03LoopedHeadTwoVars(r)
 			flushPages(r)
 			return
 		}
@@ -124,6 +125,7 @@ func runC03(r *Run, replay *Case) {
 	c03OperandHistory(r)
 	c03OnceMemberHistory(r)
 	c03OnceHeadForms(r)
+	c03LoopedHeadTwoVars(r)
 	// the history streams queue page-correspondence cases of their own
 	flushPages(r)
 }
